@@ -17,7 +17,21 @@ def main(path):
     case.setdefault("id", "replay")
     case.setdefault("tree", [])
     case.setdefault("feat", {})
-    res = run_pv([case], jobs=1, tag="replay")[0]
+    psl = case.get("feat", {}).get("psl")
+    if psl is not None:
+        # C15 cases run with fs.protected_symlinks set to the case's value (machine-global: exclusive lock, restored)
+        import fcntl
+        lock = open("/dev/shm/pathrs-verif-sysctl.lock", "w")
+        fcntl.flock(lock, fcntl.LOCK_EX)
+        orig = open("/proc/sys/fs/protected_symlinks").read().strip()
+        open("/proc/sys/fs/protected_symlinks", "w").write(str(psl))
+        try:
+            res = run_pv([case], jobs=1, tag="replay")[0]
+        finally:
+            open("/proc/sys/fs/protected_symlinks", "w").write(orig)
+            fcntl.flock(lock, fcntl.LOCK_UN)
+    else:
+        res = run_pv([case], jobs=1, tag="replay")[0]
     print("status:", res.get("status"))
     for o in res.get("out", []):
         for r in o.get("results", []):
